@@ -103,3 +103,52 @@ class Hist:
             li.it = None
             self.log.add("iter_abandon", iid)
         return li
+
+
+class SimInterrupt(BaseException):
+    """An asynchronous interruption of a library call (Ctrl-C, a signal handler
+    raising, MemoryError, RecursionError ...) at a point chosen by the seed."""
+
+
+def run_interruptible(fn, at, prefixes):
+    """Run fn(); raise SimInterrupt inside it at the `at`-th executed line of
+    code living under one of `prefixes` (line events of sys.settrace: the
+    interruption point is a deterministic function of `at`).  Returns
+    ("ok", result, lines) or ("interrupted", None, at).  Process-wide state the
+    call had modified so far stays as it is - that is the fault."""
+    import sys  # pylint: disable=import-outside-toplevel
+
+    count = [0]
+    fired = [False]
+    prefixes = tuple(prefixes)
+
+    import linecache  # pylint: disable=import-outside-toplevel
+
+    def local(frame, event, _arg):
+        if event == "line":
+            count[0] += 1
+            if count[0] >= at and not fired[0]:
+                # Not on a `with` line: the line event of a with statement also fires when
+                # the block is left, just before __exit__ is called; an exception injected
+                # there would skip __exit__ (a lock would stay held), which says something
+                # about Python's with statement, not about the library.
+                text = linecache.getline(frame.f_code.co_filename, frame.f_lineno).lstrip()
+                if not text.startswith(("with ", "async with ")):
+                    fired[0] = True
+                    raise SimInterrupt()
+        return local
+
+    def glob(frame, event, _arg):
+        if event == "call" and frame.f_code.co_filename.startswith(prefixes):
+            return local
+        return None
+
+    old = sys.gettrace()
+    sys.settrace(glob)
+    try:
+        res = fn()
+        return ("ok", res, count[0])
+    except SimInterrupt:
+        return ("interrupted", None, at)
+    finally:
+        sys.settrace(old)
